@@ -33,7 +33,7 @@ def confirm(wt, sd):
     print(json.dumps(res, indent=1))
     return res
 
-def detect_scratch(sd, prop, tier="quick", base="/tmp/mutlab"):
+def detect_scratch(sd, prop, tier="quick", base=os.environ.get("MUTLAB", "/tmp/mutlab")):
     """Like detect, but leaves /repo and /verif's evidence alone: a scratch worktree of /repo carries the patch, a scratch copy of the
     harness points its path dependencies at it, and evidence / replays go to a scratch directory.  Can run while other checks use /repo."""
     wt, hz, out = base + "/repo", base + "/harness", base + "/out"
@@ -46,14 +46,13 @@ def detect_scratch(sd, prop, tier="quick", base="/tmp/mutlab"):
     rc, o = sh("git apply %s/patch.diff" % sd, cwd=wt)
     if rc != 0:
         print("patch does not apply:", o); return None
-    if not os.path.isdir(hz):
-        sh("mkdir -p %s && rsync -a --exclude 'target*' /verif/harness/ %s/" % (hz, hz))
-    else:
-        sh("rsync -a --exclude 'target*' /verif/harness/ %s/" % hz)
+    vz = base + "/verif"          # optional frozen copy of /verif (seedtool.py snapshot), so that /verif can be edited meanwhile
+    src = vz if os.path.isdir(vz) else "/verif"
+    sh("mkdir -p %s && rsync -a --exclude 'target*' %s/harness/ %s/" % (hz, src, hz))
     sh("grep -rl '/repo/' --include=Cargo.toml --include=Cargo.lock . | xargs sed -i 's#/repo/#%s/#g'" % wt, cwd=hz)
     t0 = time.time()
     try:
-        rc, out_txt = sh("VERIF_SCRATCH_HARNESS=%s VERIF_SCRATCH_OUT=%s ./check %s %s" % (hz, out, prop, tier), cwd="/verif", timeout=7200)
+        rc, out_txt = sh("VERIF_SCRATCH_HARNESS=%s VERIF_SCRATCH_OUT=%s ./check %s %s" % (hz, out, prop, tier), cwd=src, timeout=7200)
     finally:
         sh("git checkout -q -- .", cwd=wt)
     viol = [l for l in out_txt.splitlines() if l.startswith("VIOLATION")]
@@ -61,6 +60,11 @@ def detect_scratch(sd, prop, tier="quick", base="/tmp/mutlab"):
            "tail": out_txt.splitlines()[-3:], "mode": "scratch worktree + scratch harness"}
     print(json.dumps(res, indent=1))
     return res
+
+def snapshot(base="/tmp/mutlab"):
+    os.makedirs(base, exist_ok=True)
+    rc, o = sh("rsync -a --delete --exclude 'target*' --exclude .git --exclude evidence /verif/ %s/verif/ && mkdir -p %s/verif/evidence" % (base, base))
+    print("snapshot", rc, o[-300:])
 
 def detect(sd, prop, tier="quick"):
     rc, out = sh("git -C /repo status --porcelain --untracked-files=no")
@@ -81,7 +85,9 @@ def detect(sd, prop, tier="quick"):
     return res
 
 if __name__ == "__main__":
-    if sys.argv[1] == "confirm":
+    if sys.argv[1] == "snapshot":
+        snapshot()
+    elif sys.argv[1] == "confirm":
         confirm(sys.argv[2], sys.argv[3])
     elif sys.argv[1] == "detect-scratch":
         detect_scratch(sys.argv[2], sys.argv[3], sys.argv[4] if len(sys.argv) > 4 else "quick")
